@@ -116,7 +116,7 @@ def forests(n):
         if ok: out.append(pv)
     return out
 FORESTED = {"vh_attach", "vh_link_clusters", "vh_delete_gc", "vh_put_copy", "vh_temp_copy", "vh_finalise", "vh_scale", "vh_depth"}
-WINDOWED = {"vh_delete_insert", "vh_next_end", "vh_delete_gc", "vh_insert", "vh_put_copy", "vh_temp_copy", "vh_next", "vh_assoc_op", "vh_attach", "vh_attr_set"}
+WINDOWED = {"vh_delete_putcopy"} | {"vh_delete_insert", "vh_next_end", "vh_delete_gc", "vh_insert", "vh_put_copy", "vh_temp_copy", "vh_next", "vh_assoc_op", "vh_attach", "vh_attr_set"}
 def slot_queries(pid, entries, quickmax, thoroughmax, extra=None, nmin=1, extra_unwind=None, src="slots.cpp", with_forest=False):
     qs = []
     for e in entries:
@@ -152,7 +152,7 @@ def slot_queries(pid, entries, quickmax, thoroughmax, extra=None, nmin=1, extra_
     return qs
 @prop("C03")
 def c03():
-    return slot_queries("C03", ["vh_delete_insert"], 3, 4, extra={"NSPARE": 2}) + slot_queries("C03", ["vh_reverse", "vh_delete_gc", "vh_insert", "vh_put_copy", "vh_temp_copy", "vh_next", "vh_append", "vh_associate"], 3, 5) + \
+    return slot_queries("C03", ["vh_delete_insert"], 3, 4, extra={"NSPARE": 2}) + slot_queries("C03", ["vh_delete_putcopy"], 3, 4, nmin=2) + slot_queries("C03", ["vh_reverse", "vh_delete_gc", "vh_insert", "vh_put_copy", "vh_temp_copy", "vh_next", "vh_append", "vh_associate"], 3, 5) + \
            [Q("setglyph", "slots.cpp", "vh_setglyph", {"NS": 1}, unwind=8)]
 
 # ------------------------------------------------------------------------------------------- C12
@@ -363,7 +363,17 @@ def c01_silfhdr():
                             stubs=SSTUBS, unit_flags={"Silf": ["-fno-inline"], "Pass": ["-fno-inline"]}, cc_defs=["LL_MEM_CASES=" + ",".join(map(str, sorted({0, 8 * nps, 4 * nj, 8 + 144 * np_})))],
                             tiers=("quick", "thorough") if quick else ("thorough",), timeout=600 if np_ else None))
     return qs
-C01_PARTS = [c01_cmap, c01_name, c01_decoder, feat_queries, c01_pass, c01_silf, c01_silfhdr]
+def c01_ttf():
+    qs = []
+    # Face::Table (TtfUtil::CheckTable) hands the loaders no table shorter than 4 bytes: that is the precondition of these helpers
+    for L in (4, 5, 6, 7, 8, 12):
+        qs.append(Q(f"loca_len{L}", "ttf.cpp", "vh_loca", {"LEN": L}, unwind=4, unwindset={"vh_bytes": 56}))
+    for L in (4, 9, 10, 11, 12, 20):
+        qs.append(Q(f"glyf_len{L}", "ttf.cpp", "vh_glyf", {"LEN": L}, unwind=4, unwindset={"vh_bytes": L + 2}))
+    for L in (4, 5, 6, 8, 10):
+        qs.append(Q(f"hmtx_len{L}", "ttf.cpp", "vh_hmtx", {"LEN": L}, unwind=4, unwindset={"vh_bytes": 38}))
+    return qs
+C01_PARTS = [c01_cmap, c01_name, c01_decoder, feat_queries, c01_pass, c01_silf, c01_silfhdr, c01_ttf]
 @prop("C01")
 def c01():
     qs = []
@@ -470,9 +480,12 @@ def frozen_queries(pid):
     for enc in (8, 16): base.append(Q(f"read_text_u{enc}_len2", "text.cpp", "vh_read_text", {"ENC": enc, "LEN": 2, "EXTRA": 0}, unwind=8))
     for st in (0, 1): base.append(Q(f"runfsm_n1_at0" if st == 0 else "adjust_n2", "fsm.cpp", "vh_runfsm" if st == 0 else "vh_adjust", {"NS": 1 if st == 0 else 2, "WSTART": 0}, unwind=8, unwindset={"accumulate_rules": 5, "runFSM": 4, "reset": 3, "make_pass": 8, "adjustSlot": 6}))
     base.append(Q("advance_query", "slots.cpp", "vh_advance_query", {"NS": 1}, unwind=8))
+    for n in (1, 2):
+        base.append(Q(f"test_constraint_n{n}", "fsm.cpp", "vh_test_constraint", {"NS": n, "WSTART": 0}, unwind=8, unwindset={"accumulate_rules": 5, "runFSM": n + 3, "reset": 3, "make_pass": 8, "testConstraint": 4, "vh_test_constraint": 6},
+                      tiers=("quick", "thorough") if n == 1 else ("thorough",), timeout=None if n == 1 else 1700))
     for q in base:
         q.frozen = True; q.defines = dict(q.defines); q.defines["VH_FROZEN"] = None; q.name = "frozen_" + q.name
-        q.unwindset = dict(q.unwindset); q.unwindset["ll_frozen_check"] = 18
+        q.unwindset = dict(q.unwindset); q.unwindset["ll_frozen_check"] = 30
         qs.append(q)
     return qs
 @prop("C08")
